@@ -185,4 +185,44 @@ theorem assignOps_value_volatile {s : VariableSet} (h : Norm s) (ht : TopVol s) 
       rw [hs]
       exact ⟨by simp [lookup, SCtx.set], ⟨_, t, rfl, hc⟩⟩
 
+/-- a whole prefix at `Volatile` scope only ever changes the command's own volatile context -/
+theorem runAssigns_volatile_tail (X0 : SSet) (ex : Bool) (as : List (Name × AVal)) (s : VariableSet)
+    (h : Norm s) (hP : ∃ c, abs s = c :: X0 ∧ c.kind.isRegular = false) :
+    Norm (runAssigns ifaceM .volatile ex s as).1 ∧
+    ∃ c, abs (runAssigns ifaceM .volatile ex s as).1 = c :: X0 ∧ c.kind.isRegular = false := by
+  induction as generalizing s with
+  | nil => exact ⟨h, hP⟩
+  | cons p rest ih =>
+    obtain ⟨n, e⟩ := p
+    have := assignOps_value_of h .volatile ex n (evalA ifaceM s e)
+      (fun X => ∃ c, X = c :: X0 ∧ c.kind.isRegular = false) hP
+      (by
+        rintro X ⟨c, rfl, hc⟩
+        obtain ⟨w, hr, hs⟩ := spec_assign_vol c X0 hc n (evalA ifaceM s e) none
+        exact ⟨w, hr, by rw [hs]; simp [lookup, SCtx.set], by rw [hs]; exact ⟨_, rfl, hc⟩⟩)
+      (by
+        rintro X u ⟨c, rfl, hc⟩ hu
+        cases hv : c.vars n with
+        | some u' =>
+          have : u' = u := by simpa [lookup, hv] using hu
+          subst this
+          rw [step_export_vol c X0 hc n true u' hv]
+          exact ⟨by simp [lookup, SCtx.set], ⟨_, rfl, hc⟩⟩
+        | none =>
+          have hs : (SSet.step (c :: X0) (.export n .volatile true)).1
+              = c.set n (some (u.setExport true)) :: X0 := by
+            have hu' : lookup X0 n = some u := by simpa [lookup, hv] using hu
+            simp only [SSet.step, SSet.getOrNew, hc, hv, hu']
+            simp [modifyVisible, SCtx.set]
+            funext m; split <;> rfl
+          rw [hs]
+          exact ⟨by simp [lookup, SCtx.set], ⟨_, rfl, hc⟩⟩)
+    simp only [runAssigns]
+    cases hr : runOps ifaceM s (assignOps .volatile ex n (evalA ifaceM s e)) with
+    | mk s1 b =>
+      rw [hr] at this
+      cases b
+      · exact ih s1 this.1 this.2.1
+      · exact ⟨this.1, this.2.1⟩
+
 end YashModel.Variable
